@@ -29,13 +29,15 @@ structure InvT (env : Env) (root : Mod) (scope : List Stmt) (n : Stmt) : Prop wh
   node : Fuel.Sub n root.stmt
   scope : ∀ s ∈ scope, Fuel.Sub s root.stmt
   top : isModKw n = true → n = root.stmt
+  topScope : isModKw n = true → scope = []
 
 theorem InvT.ofMod {env : Env} {m : Mod} (hm : m ∈ env.reg.mods) : InvT env m [] m.stmt :=
-  ⟨hm, .refl _, fun _ h => (by cases h), fun _ => rfl⟩
+  ⟨hm, .refl _, fun _ h => (by cases h), fun _ => rfl, fun _ => rfl⟩
 
 theorem InvT.child {env : Env} {root : Mod} {scope : List Stmt} {n c : Stmt} (inv : InvT env root scope n)
     (hc : c ∈ n.subs) (hk : isModKw c = false) : InvT env root (n :: scope) c := by
-  refine ⟨inv.root_mem, Fuel.Sub.child hc inv.node, ?_, fun h => (by rw [hk] at h; cases h)⟩
+  refine ⟨inv.root_mem, Fuel.Sub.child hc inv.node, ?_, fun h => (by rw [hk] at h; cases h),
+    fun h => (by rw [hk] at h; cases h)⟩
   intro s hs
   cases hs with
   | head => exact inv.node
@@ -58,17 +60,19 @@ theorem InvT.uses {env : Env} {root : Mod} {scope : List Stmt} {n : Stmt} (inv :
   obtain ⟨hkw, ⟨n0, up, hgs, hgm⟩, hloc⟩ := Fuel.findGrouping_sound h
   have hnm : isModKw g = true → g = groot.stmt := by
     intro hm; simp [isModKw, hkw] at hm
+  have hnm2 : isModKw g = true → gscope = [] := by
+    intro hm; simp [isModKw, hkw] at hm
   rcases hloc with ⟨hroot, pre, hpre⟩ | ⟨hmem, hgs'⟩
   · subst hroot
     have hsc : ∀ s ∈ gscope, Fuel.Sub s groot.stmt := fun s hs =>
       inv.scope s (by rw [hpre]; exact List.mem_append_right _ hs)
     have hn0 : Fuel.Sub n0 groot.stmt := hsc n0 (by rw [hgs]; exact List.mem_cons_self ..)
-    exact ⟨inv.root_mem, Fuel.Sub.child hgm hn0, hsc, hnm⟩
+    exact ⟨inv.root_mem, Fuel.Sub.child hgm hn0, hsc, hnm, hnm2⟩
   · have hn0 : n0 = groot.stmt := by
       rw [hgs'] at hgs
       cases hgs; rfl
     subst hn0
-    refine ⟨hmem, Fuel.Sub.child hgm (.refl _), ?_, hnm⟩
+    refine ⟨hmem, Fuel.Sub.child hgm (.refl _), ?_, hnm, hnm2⟩
     intro s hs
     rw [hgs'] at hs
     cases hs with
